@@ -3,4 +3,6 @@ CONSTANTS
   Component = "mixed"
   Precisions = {1, 4, 8, 12}
   NMixed = 1500
+  DEV_XmlDropsHorn = FALSE
+  DEV_ReaderStopsAtFirstUnset = FALSE
 INVARIANT Emit
